@@ -5,7 +5,7 @@ from .store import MODES
 
 DEFAULT_WEIGHTS = {
     'addLoose': 22, 'addPacked': 16, 'packAll': 10, 'clean': 7, 'delete': 7, 'repack': 6, 'loosen': 5,
-    'reopen': 4, 'reinit': 1, 'import': 8, 'repackOne': 3,
+    'reopen': 4, 'reinit': 1, 'import': 8, 'repackOne': 3, 'plantDup': 3,
 }
 
 
